@@ -1013,3 +1013,83 @@ pub fn zst_sorted_battery() -> Option<Failure> {
     }
     None
 }
+
+// ---------------------------------------------------------------------------------------------
+// C16 (clear / drain) and C04 (double drop): drop accounting for every combination of "the item type has
+// drop glue" x "the priority type has drop glue". The history checks only ever use two types that both
+// have it; code that asks `mem::needs_drop` (or that is specialised on Copy types) behaves differently.
+
+pub fn drop_glue_battery() -> Vec<Failure> {
+    use priority_queue::{DoublePriorityQueue, PriorityQueue};
+    let mut out: Vec<Failure> = Vec::new();
+    fn judge(out: &mut Vec<Failure>, kind: &'static str, op: &'static str, types: &str, created_live: usize) {
+        let (live, dd) = tracking_report();
+        if dd > 0 {
+            out.push(Failure { group: Group::Panic, clause: "double_drop", step: 0, op, detail: format!("{} on {}<{}>: {} instrumented values were dropped twice", op, kind, types, dd), kind });
+        }
+        if live != created_live {
+            out.push(Failure {
+                group: Group::Content,
+                clause: "not_dropped",
+                step: 0,
+                op,
+                detail: format!("{} on {}<{}>: {} instrumented values are still alive after the queue and everything it returned were dropped (expected {})", op, kind, types, live, created_live),
+                kind,
+            });
+        }
+    }
+    macro_rules! scripts {
+        ($Q:ident, $kind:expr, $I:ty, $P:ty, $mi:expr, $mp:expr, $types:expr, $popmax:ident) => {{
+            let mi = $mi;
+            let mp = $mp;
+            let fill = |n: u32| -> $Q<$I, $P, HB> {
+                let mut q: $Q<$I, $P, HB> = $Q::with_hasher(HB::of(HasherKind::Xx));
+                for i in 0..n {
+                    q.push(mi(i), mp((i as i64 * 7) % 11));
+                }
+                q
+            };
+            for n in [1u32, 2, 9, 40] {
+                let steps: Vec<(&'static str, Box<dyn Fn()>)> = vec![
+                    ("clear", Box::new(|| { let mut q = fill(n); q.clear(); q.push(mi(1), mp(1)); q.clear(); })),
+                    ("drain", Box::new(|| { let mut q = fill(n); let c = q.drain().count(); assert_eq!(c, n as usize); q.push(mi(1), mp(1)); })),
+                    ("drain", Box::new(|| { let mut q = fill(n); { let mut d = q.drain(); let _a = d.next(); let _b = d.next_back(); } q.push(mi(1), mp(1)); })),
+                    ("drain", Box::new(|| { let mut q = fill(n); drop(q.drain()); })),
+                    ("drop", Box::new(|| { let _q = fill(n); })),
+                    ("pop", Box::new(|| { let mut q = fill(n); while q.$popmax().is_some() {} })),
+                    ("remove", Box::new(|| { let mut q = fill(n); for i in (0..n).step_by(2) { let _ = q.remove(&mi(i)); } })),
+                    ("retain", Box::new(|| { let mut q = fill(n); let mut k = 0; q.retain(|_, _| { k += 1; k % 3 != 0 }); })),
+                    ("into_iter", Box::new(|| { let q = fill(n); let mut it = q.into_iter(); let _a = it.next(); let _b = it.next_back(); })),
+                    ("sorted_iter", Box::new(|| { let q = fill(n); let mut it = q.into_sorted_iter(); let _a = it.next(); })),
+                    ("push", Box::new(|| { let mut q = fill(n); for i in 0..n { let _old = q.push(mi(i), mp(3)); } })),
+                    ("change_priority", Box::new(|| { let mut q = fill(n); for i in 0..n { let _old = q.change_priority(&mi(i), mp(-(i as i64))); } })),
+                    ("extend", Box::new(|| { let mut q = fill(n); q.extend((0..2 * n + 3).map(|i| (mi(i), mp(i as i64 % 5)))); })),
+                    ("append", Box::new(|| { let mut q = fill(n); let mut o = fill(n + 3); q.append(&mut o); })),
+                    ("clone", Box::new(|| { let q = fill(n); let mut c = q.clone(); c.clear(); let mut d = fill(3); d.clone_from(&q); })),
+                    ("from_vec", Box::new(|| { let v: Vec<($I, $P)> = (0..n).chain(0..n).map(|i| (mi(i), mp(i as i64))).collect(); let _q: $Q<$I, $P, HB> = $Q::from(v); })),
+                    ("from_iter", Box::new(|| { let _q: $Q<$I, $P, HB> = (0..n).chain(0..n).map(|i| (mi(i), mp(i as i64))).collect(); })),
+                    ("into_vec", Box::new(|| { let q = fill(n); let _v = q.into_vec(); })),
+                    ("shrink_to_fit", Box::new(|| { let mut q = fill(n); let _ = q.$popmax(); q.shrink_to_fit(); q.reserve(100); })),
+                ];
+                for (op, f) in steps.iter() {
+                    set_tracking(true);
+                    let r = catch_unwind(AssertUnwindSafe(|| f()));
+                    if r.is_err() {
+                        out.push(Failure { group: Group::Panic, clause: "panic", step: 0, op, detail: format!("{} on {}<{}> with {} elements panicked: {}", op, $kind, $types, n, last_panic_message()), kind: $kind });
+                    } else {
+                        judge(&mut out, $kind, op, $types, 0);
+                    }
+                    set_tracking(false);
+                }
+            }
+        }};
+    }
+    set_default_hb(HasherKind::Xx);
+    scripts!(PriorityQueue, "PQ", u32, Prio, |i: u32| i, |p: i64| Prio::new(p), "u32, Prio", pop);
+    scripts!(PriorityQueue, "PQ", Key, i64, |i: u32| Key::new(i, 0), |p: i64| p, "Key, i64", pop);
+    scripts!(PriorityQueue, "PQ", Key, Prio, |i: u32| Key::new(i, 0), |p: i64| Prio::new(p), "Key, Prio", pop);
+    scripts!(DoublePriorityQueue, "DPQ", u32, Prio, |i: u32| i, |p: i64| Prio::new(p), "u32, Prio", pop_max);
+    scripts!(DoublePriorityQueue, "DPQ", Key, i64, |i: u32| Key::new(i, 0), |p: i64| p, "Key, i64", pop_min);
+    scripts!(DoublePriorityQueue, "DPQ", Key, Prio, |i: u32| Key::new(i, 0), |p: i64| Prio::new(p), "Key, Prio", pop_max);
+    out
+}
